@@ -17,7 +17,7 @@ from collections import defaultdict
 from .facts import op_place, Call, Site
 
 HOOKS = ("pre_start", "post_start", "post_stop", "handle", "handle_serialized", "handle_supervisor_evt")
-SEED_TRAITS = {"ractor::actor::Actor": "S", "ractor::thread_local::ThreadLocalActor": "T"}
+SEED_TRAITS = {"ractor::actor::Actor": "S", "ractor::thread_local::ThreadLocalActor": "T", "ractor::Actor": "S"}
 
 ROOT_RX = re.compile(
     r"^(tokio::task::spawn|tokio::task::spawn_local|tokio::task::spawn_blocking|tokio::spawn|"
